@@ -403,16 +403,18 @@ def gen_lit(rng):
     return ("lit", tuple(vals))
 
 
-def gen_member(rng):
+def gen_member(rng, S):
     r = rng.random()
     if r < 0.42:
-        return ("c", rng.choice([0, 1, 2, 3, 4, 5, 6, 7]))
+        # mostly configured classes (otherwise nearly every union has a spill-over and nothing is ever rejected)
+        return ("c", rng.choice(S) if rng.random() < 0.8 else rng.choice([0, 1, 2, 3, 4, 5, 6, 7]))
     if r < 0.52:
         return ("c", rng.choice([8, 9]))
     if r < 0.80:
         return gen_lit(rng)
     if r < 0.95:
-        return ("nt", rng.choice(sorted(NT)))
+        in_s = [b for b in sorted(NT) if b in S]
+        return ("nt", rng.choice(in_s) if in_s and rng.random() < 0.75 else rng.choice(sorted(NT)))
     return ("o", rng.choice([0, 1]))
 
 
@@ -424,13 +426,17 @@ def mem_key(m):
 
 def gen_union(rng):
     n = rng.choice([2, 3, 3, 4, 4, 5])
+    if rng.random() < 0.3:
+        S = list(JSON_S)
+    else:
+        S = rng.sample(S_POOL, rng.randint(2, 6))
     ms = []
     keys = set()
     n_spill = 0
     tries = 0
     while len(ms) < n and tries < 50:
         tries += 1
-        m = gen_member(rng)
+        m = gen_member(rng, S)
         if mem_key(m) in keys:
             continue
         if m in (("c", 8), ("c", 9), ("nt", 8)) or m[0] == "o":
@@ -439,11 +445,6 @@ def gen_union(rng):
             n_spill += 1
         keys.add(mem_key(m))
         ms.append(m)
-    r = rng.random()
-    if r < 0.3:
-        S = list(JSON_S)
-    else:
-        S = rng.sample(S_POOL, rng.randint(2, 6))
     return UnionCase(S, ms)
 
 
